@@ -22,7 +22,8 @@ TIERS = {
     "thorough": {"segments": 200000, "wall": 1500, "min_budget": 300},
 }
 SEGMENT_TIMEOUT = 300
-SAMPLE_MAXOPS = 10**9
+SAMPLE_MAXOPS = 14
+SAMPLE_TRUNCATE = True   # segments have hundreds of ops: evidence shows the head of the trace
 RULE = (
     "segment = one generated (workspace, patch-set) document pair; every leaf of the workspace is corrupted once "
     "(exhaustive per document) plus key additions/removals, benign re-serialisations and one corruption per recorded "
